@@ -28,9 +28,11 @@ Outcome run_threads(const json& c, const std::string&) {
     Engine<P>& eng = engine<P>();
     using Eng = Engine<P>;
     eng.clear_definitions();
+    eng.clear_probe_defs();
     eng.unregister_classes();
     eng.reset_tables();
     Eng::install_handler();
+    Probes<P>::enabled = false;
     std::vector<int> order;
     for (int i = 0; i < 16; ++i) {
         order.push_back(i);
@@ -82,6 +84,7 @@ Outcome run_threads(const json& c, const std::string&) {
     // the unrelated policy, updated concurrently
     Engine<upd_policy>& upd = engine<upd_policy>();
     upd.clear_definitions();
+    upd.clear_probe_defs();
     upd.unregister_classes();
     upd.reset_tables();
     Engine<upd_policy>::install_handler();
